@@ -244,8 +244,12 @@ def stream_history(ctx, n, steps):
                 nv = len(keep)
                 M.nv = nv
                 M.names = list(range(nv))
-        # independent re-check of the node table after every step
+        # independent re-check of the node table after every step, and dd's own check
         if not M.check_table('C02:table'):
+            break
+        M.op('assert_consistent')
+        if not M.s.ok():
+            ctx.violation('C02:assert-consistent', 'BDD.assert_consistent() fails on a manager built by public calls', M.case())
             break
         # pairwise: equal reference <=> equal function
         memo = {}
